@@ -32,9 +32,25 @@ ASSUMPTIONS = ["when the *source* of a streamed list fails after items were deli
 REQUIRED_COUNTERS = ["runs", "incremental_responses", "assembled_compared_exact", "assembled_compared_refines", "payloads_merged"]
 
 
+def split_defer_doc(rng):
+    """A deferred fragment that shares an object field with the initial selection, so that it is executed as two
+    units of work, one of which selects non-null fields (whose failure fails the whole fragment)."""
+    leafs = ['name', 'age', 'active', 'role', 'blob', 'roles', 'tags']
+    nn = rng.choice(['score', 'id', 'nnBest { id }', 'nnBest { score }', 'nnFriends { id }', 'tags'])
+    inner = rng.choice(['best', 'nnBest', 'best'])
+    parent = rng.choice(['me', 'nnMe', 'users', 'me { best', 'users @stream(initialCount: 1)'])
+    close = ' }' if '{' in parent else ''
+    a, b = rng.sample(leafs, 2)
+    extra = rng.choice(['', '', f' ... @defer(label: "E") {{ {inner} {{ {rng.choice(leafs)} }} }}', f' k: {inner} {{ id }}'])
+    lab2 = rng.choice(['', ' @stream(label: "S", initialCount: 0)']) if b in ('roles', 'tags') else ''
+    return (f'query Q {{ {parent} {{ {inner} {{ {a} }} ... @defer(label: "D") {{ {nn} {inner} {{ {b}{lab2} }} }}{extra} }}{close} }}')
+
+
 def gen_request(seed, p_defer=0.35, p_stream=0.35):
     schema = rich_inc()
     rng = random.Random(seed)
+    if seed % 11 == 10:
+        return schema, split_defer_doc(rng), {}, rng
     g = DocGen(schema, rng, ops=('query',), max_depth=3, p_defer=p_defer, p_stream=p_stream)
     if rng.random() < 0.3:
         g.op_dirs = ' @experimental_disableErrorPropagation'
